@@ -1,5 +1,5 @@
 """C12 — fixed-size hint, reset and the generator's error contract (structural clauses)."""
-from ..rules import generator as gen, piece, errflow, summary, beliefs
+from ..rules import generator as gen, piece, errflow, summary, beliefs, engine
 
 EXPL = ("Decides, on the type-checked MIR of /repo: (1) SA-FIELDS: Generator::reset and BlockHashContext::reset give every field the "
         "same symbolic value as new(), except three reasoned exceptions each with a structural side condition (h_last only used under "
@@ -26,6 +26,9 @@ def run(ctx):
         ctx.guard("C12", "writers", lambda: gen.field_writers(ctx, prog))
         ctx.guard("C12", "reset", lambda: gen.reset_equals_new(ctx, prog))
         ctx.guard("C12", "reset-side", lambda: gen.reset_side_conditions(ctx, prog))
+        # exception 1 of reset == new (contexts above the active range keep their old contents) is sound only if the digest never looks
+        # above bhidx_end - 1: the block-size guess starts at min(.., bhidx_end - 1) and only goes down
+        ctx.guard("C12", "guess-range", lambda: engine.step_thresholds(ctx, prog))
         ctx.guard("C12", "init", lambda: piece.initial_state(ctx, prog))
         if c != "nodef":
             # the front ends that declare a size on the caller's behalf declare the right one (buffer length / metadata of the opened file)
